@@ -140,6 +140,17 @@ func newPool() *purityPool {
 		panic(err)
 	}
 	p.models["m_this_twice"] = twice
+	// ... and models the graph builders refuse: a tupleset nobody defines, a tuple-free rewrite cycle
+	badttu, err := transformer.LoadJSONStringToProto(`{"schema_version":"1.1","type_definitions":[{"type":"user"},{"type":"doc","relations":{"a":{"this":{}},"v":{"union":{"child":[{"this":{}},{"tupleToUserset":{"tupleset":{"relation":"nope"},"computedUserset":{"relation":"a"}}}]}}},"metadata":{"relations":{"a":{"directly_related_user_types":[{"type":"user"}]},"v":{"directly_related_user_types":[{"type":"user"}]}}}}]}`)
+	if err != nil {
+		panic(err)
+	}
+	p.models["m_bad_ttu"] = badttu
+	cyc, err := transformer.TransformDSLToProto("model\n  schema 1.1\n\ntype user\n\ntype doc\n  relations\n    define a: b\n    define b: c or a\n    define c: [user]\n")
+	if err != nil {
+		panic(err)
+	}
+	p.models["m_rw_cycle"] = cyc
 	p.files["f_ok"] = mods
 	p.files["f_conflict"] = poolConflict()
 	return p
